@@ -55,6 +55,34 @@ def regenerate():
     return True, out.strip()
 
 
+def hook_sites(run):
+    """The claim table is extracted from the PRODUCTION file set (no build tag).  The harness is built with
+    -tags verif, which adds the add-only hook files; extract once more with the tag and report what they add.
+    Informative only: a write through a shared reference in a hook file is noted, never a verdict."""
+    js = os.path.join(WORK, "sites_verif.json")
+    rc, out = C.sh([os.path.join(C.BIN, "srcfacts"), "-repo", C.REPO, "-tags", "verif", "-json", js, "-go", C.GO],
+                   env=C.GOENV, timeout=600)
+    if rc != 0:
+        return {"error": out[-300:]}
+    try:
+        base = json.load(open(SIDECAR))
+        ext = json.load(open(js))
+    except Exception as e:
+        return {"error": str(e)}
+
+    def key(s):
+        return (s["Struct"], s["Field"], s["Func"], s["Kind"], s["Ord"])
+    have = {key(s) for s in base["sites"]}
+    extra = [s for s in ext["sites"] if key(s) not in have]
+    shared_writes = ["%s.%s in %s (%s)" % (s["Struct"], s["Field"], s["Func"], s["Dbg"])
+                     for s in extra if s["Kind"] == "Wr" and s["Pre"] == "PreNone"]
+    if shared_writes:
+        run.notes.append("verif-tagged hook files write tracked fields through a shared reference (not part of the "
+                         "production API, not judged): " + "; ".join(shared_writes[:10]))
+    return {"extra_sites": len(extra), "files": sorted({s["File"] for s in extra}),
+            "shared_writes": shared_writes[:10]}
+
+
 def coq_report():
     """vm_compute the policy failures on the current table (report/C17Report.v, outside the make build)."""
     with C.Lock("coq"):
@@ -276,10 +304,17 @@ def dynamic_leg(run, budget_s, targets, exceptions):
                     stats["no_summary"] += 1
                     if "panic:" in r.get("stderr", "") or "fatal error:" in r.get("stderr", ""):
                         stats["crashed"] += 1
-                        if "first_crash" not in stats:
-                            e = r["stderr"]
-                            at = max(e.find("panic:"), e.find("fatal error:"), 0)
-                            stats["first_crash"] = {"idx": r["idx"], "stderr": e[at:at + 1500]}
+                        e = r["stderr"]
+                        at = max(e.find("panic:"), e.find("fatal error:"), 0)
+                        msg = e[at:].split("\n", 1)[0]
+                        m = re.search(r"^(" + re.escape(MOD) + r"[^\n(]*(?:\([^)]*\)[^\n(]*)*)\(", e[at:], re.M)
+                        sig = "%s @ %s" % (re.sub(r"\[\d+\]|\d+", "N", msg), short_func(m.group(1)) if m else "?")
+                        plan = re.search(r"^PLAN (.*)$", e, re.M)
+                        again = bool(plan and "RunAgain" in plan.group(1))
+                        c = stats.setdefault("crashes", {}).setdefault(sig, {"count": 0, "with_RunAgain_in_plan": 0,
+                                                                               "idx": r["idx"], "stderr": e[at:at + 1500]})
+                        c["count"] += 1
+                        c["with_RunAgain_in_plan"] += 1 if again else 0
                 for rc in races_of(r.get("stderr", ""), sites, repo_root):
                     stats["race_reports"] += 1
                     if rc.get("outside"):
@@ -303,6 +338,7 @@ def run(run):
                       "srcfacts could not extract the access table from %s (theorem C17_table_ok is not re-checked)" % C.REPO, True)
         return
     cov["srcfacts"] = msg
+    cov["verif_hook_files"] = hook_sites(run)
     # the extractor is trusted: re-validate it on the hand-checked fixture every run
     from . import fixture_c17
     fok, fdiff, fn = fixture_c17.compare()
@@ -429,7 +465,10 @@ def run(run):
     })
     if stats["hung"] or stats["crashed"]:
         run.notes.append("%d scenario(s) hit the 30 s limit and %d crashed (deadlocks/panics are other properties' "
-                         "subject; recorded, not a C17 verdict)" % (stats["hung"], stats["crashed"]))
+                         "subject; recorded under dynamic.crashes with plan and stack, not a C17 verdict): %s" % (
+                             stats["hung"], stats["crashed"],
+                             "; ".join("%s x%d (%d with a second Run())" % (k, v["count"], v["with_RunAgain_in_plan"])
+                                       for k, v in stats.get("crashes", {}).items())))
     run.assumptions += ["Run() is invoked at most once at a time on a runner (HBVia composite-run-then-reload)",
                         "proof is over the extracted access table, not over the Go code"]
     if proof_ok:
